@@ -3,10 +3,10 @@
 -- value is shorter than 2^62 bytes, which is where Go's wrap-around is the identity).
 -- Heavy case analyses are proved once about a normal form (Proofs/SnapStr.lean, built by lake); here the
 -- freshly translated function is shown to BE that normal form.
--- functions: ds/str String.getBit, ds/str String.GetBit, ds/str String.Strlen, ds/str String.GetRange, ds/str String.Append, ds/str String.Set, ds/str String.Get, ds/str String.GetSet
+-- functions: ds/str String.BitCount, ds/str String.getBit, ds/str String.GetBit, ds/str String.Strlen, ds/str String.GetRange, ds/str String.Append, ds/str String.Set, ds/str String.Get, ds/str String.GetSet
 -- properties: C01
 -- import: NodisVerif.Model.DsStr
--- import: NodisVerif.Proofs.SnapStr
+-- import: NodisVerif.Proofs.SnapStrBits
 namespace NodisVerif.TranslatedTie
 open NodisVerif NodisVerif.Translated NodisVerif.GoLib
 
@@ -35,6 +35,17 @@ theorem str_GetBit_eq_model (v : Bytes) (o : Int) (hv : v.length < 2 ^ 62) (ho :
   simp only [str.String_.GetBit, str_getBit_eq_model v o hv ho, bind, Except.bind, pure, Except.pure]
 
 example : str.String_.getBit ⟨[0xA5]⟩ 2 = .ok 1 ∧ str.String_.getBit ⟨[0xA5]⟩ 1 = .ok 0 := by decide
+
+theorem str_BitCount_is_normal_form (v : Bytes) (a b : Int) : str.String_.BitCount ⟨v⟩ a b = StrNF.BitCount v a b := by
+  first | rfl | simp [str.String_.BitCount, StrNF.BitCount]
+
+/-- `BitCount(start, end)` is the model's `bitCount` (the code's own index normalisation, then the number of set bits of the
+    window) for all int64 arguments, and never panics; the counter cannot wrap -/
+theorem str_BitCount_eq_model (v : Bytes) (a b : Int) (hv : v.length < 2 ^ 58) (ha : inInt64 a) (hb : inInt64 b) :
+    str.String_.BitCount ⟨v⟩ a b = .ok (DsStr.bitCount (some v) a b) := by
+  rw [str_BitCount_is_normal_form]; exact StrNF.BitCount_eq_model v a b hv ha hb
+
+example : str.String_.BitCount ⟨[0xA5, 0x0F, 0xFF]⟩ 1 (-1) = .ok 12 := by decide +kernel
 
 theorem str_Append_eq_model (v d : Bytes) (h : ¬ (v = [] ∧ d = [])) :
     str.String_.Append ⟨v⟩ d = .ok (⟨v ++ d⟩, (DsStr.append (some v) d).2) := by
